@@ -292,3 +292,74 @@ func VerifH14cFailover() {
 	}
 	verifrt.Observe("failover", calls)
 }
+
+// zzScriptedRT answers health-check probes and proxied requests from a script.
+type zzScriptedRT struct{ fail bool }
+
+func (t *zzScriptedRT) RoundTrip(req *http.Request) (*http.Response, error) {
+	if t.fail {
+		return nil, errors.New("connection refused")
+	}
+	return &http.Response{StatusCode: 200, Header: http.Header{}, Body: http.NoBody, Request: req}, nil
+}
+
+// VerifH14dHealthCheckedOutage: a short outage seen both by a proxied request (one recorded failure)
+// and by the health checker (down, then up again, possibly several probes) leaves the failure count
+// consistent: never negative, zero once fail_timeout has passed, and the next failure counts as one
+// (the backend is down again at max_fails 1).
+func VerifH14dHealthCheckedOutage() {
+	failTimeout := 10 * time.Second
+	if !verifrt.Symbolic() {
+		failTimeout = 20 * time.Millisecond // natively AdvanceTime sleeps at most 50ms
+	}
+	verifrt.Concurrent(0)
+	u := &staticUpstream{from: "/", MaxFails: 1, FailTimeout: failTimeout}
+	h, err := u.NewHost("http://backend")
+	if err != nil {
+		verifrt.Fail("newhost")
+		return
+	}
+	be := &zzScriptedRT{fail: true}
+	h.ReverseProxy.Transport = be
+	h.ReverseProxy.FlushInterval = 0
+	u.Hosts = HostPool{h}
+	probe := &zzScriptedRT{}
+	u.HealthCheck.Path = "/health"
+	u.HealthCheck.Client = http.Client{Transport: probe}
+	// under the engine the client's plumbing (cookies, timers, redirects) is cut short
+	verifrt.Stub("(*net/http.Client).Do", func(c *http.Client, req *http.Request) (*http.Response, error) { return c.Transport.RoundTrip(req) })
+	p := Proxy{Upstreams: []Upstream{u}}
+	serve := func() {
+		r := &http.Request{Method: "GET", URL: &url.URL{Path: "/"}, Header: http.Header{}, Host: "site", RemoteAddr: "1.2.3.4:5"}
+		p.ServeHTTP(&zzW14{}, r)
+	}
+	serve() // the backend is failing: one failure on record
+	verifrt.Assert(atomic.LoadInt32(&h.Fails) == 1, "one-failure-recorded")
+	nDown := verifrt.IntRange("probes-while-down", 0, 2)
+	probe.fail = true
+	for i := 0; i < nDown; i++ {
+		u.healthCheck()
+	}
+	probe.fail, be.fail = false, false
+	nUp := verifrt.IntRange("probes-after-recovery", 0, 2)
+	for i := 0; i < nUp; i++ {
+		u.healthCheck()
+		verifrt.Assert(atomic.LoadInt32(&h.Fails) >= 0, "failure-count-never-negative")
+	}
+	verifrt.DrainGoroutines()
+	verifrt.AdvanceTime(failTimeout + time.Second)
+	verifrt.Assert(atomic.LoadInt32(&h.Fails) == 0, "failure-count-returns-to-zero")
+	if atomic.LoadInt32(&h.Unhealthy) != 0 {
+		// no probe has seen the recovery yet: the checker keeps the backend out of rotation
+		verifrt.Observe("outage", nDown, nUp)
+		return
+	}
+	// the next outage: one failure makes the backend unavailable again
+	be.fail = true
+	serve()
+	verifrt.Assert(atomic.LoadInt32(&h.Fails) == 1, "next-failure-counts-as-one")
+	verifrt.Assert(u.Select(&http.Request{Header: http.Header{}}) == nil || atomic.LoadInt32(&h.Unhealthy) == 0 && !h.Available(), "backend-down-at-max-fails")
+	verifrt.DrainGoroutines()
+	verifrt.AdvanceTime(failTimeout + time.Second)
+	verifrt.Observe("outage", nDown, nUp)
+}
